@@ -232,6 +232,9 @@ Definition fci_violations (k : fb_kind) (f : fci_cfg) : list werr :=
       (if (127 <? pt)%N then [PayloadTypeInvalid] else []) ++
       (if (8 <? ov)%N || (match bits with [] => (0 <? ov)%N | _ => false end) then [PaddingBitsTooLarge] else [])
   | FFir adds => if (32766 <? N.of_nat (length (rfc_fir_map adds)))%N then [TooManyFir] else []
+  (* more than 65533 (PID, BLP) words do not fit the 16-bit length field (never reached by u16 sets) *)
+  | FNack adds => let s := rfc_set adds in
+                  if (65533 <? N.of_nat (length (rfc_nack_words (length s) s)))%N then [TooManyNack] else []
   | _ => []
   end.
 
@@ -291,6 +294,9 @@ Definition spec_parse2 (e : entry) (l : bytes) : list kv :=
   | _ => []
   end.
 
+(* with the total-size rule of the property (65536 words per packet) included *)
+Definition representable_full (m : member) : bool := representable m && negb (m_oversize m).
+
 Definition spec_build2 (m : member) : list kv :=
   spec_build m ++
-  [("spec.representable", obs_bool (representable m)); ("spec.violations", OL (map obs_werr (violations m)))].
+  [("spec.representable", obs_bool (representable_full m)); ("spec.violations", OL (map obs_werr (violations m)))].
